@@ -677,12 +677,15 @@ def initial_points(rng, dim, family):
     return [tuple([0.0] * dim)] + [tuple(k if j == i else 0.0 for j in range(dim)) for i in range(dim)]
 
 
-def next_point(rng, tri, dim, family, off=None):
+def next_point(rng, tri, dim, family, off=None, scale=None):
     """(point, kind) — the next point to insert; may be a duplicate on purpose.  `off` translates the families that are
     generated in absolute coordinates (points derived from existing vertices are in the translated frame already)"""
     p, kind = _next_point(rng, tri, dim, family)
-    if off is not None and kind in ABSOLUTE_KINDS:
-        p = tuple(x + o for x, o in zip(p, off))
+    if kind in ABSOLUTE_KINDS:
+        if scale is not None:
+            p = tuple(x * scale for x in p)
+        if off is not None:
+            p = tuple(x + o for x, o in zip(p, off))
     return p, kind
 
 
@@ -818,6 +821,8 @@ def _run_case(spec):
     else:
         init = initial_points(rng, dim, family)
         off = spec.get("offset")
+        if spec.get("scale") is not None:
+            init = [tuple(x * spec["scale"] for x in p) for p in init]
         if off is not None:
             init = [tuple(x + o for x, o in zip(p, off)) for p in init]
         ratio = spec.get("ratio")
@@ -857,7 +862,7 @@ def _run_case(spec):
             kind, mode = o.get("kind", "?"), o.get("mode", "?")
         else:
             for _try in range(50):
-                point, kind = next_point(rng, tri, dim, family, spec.get("offset"))
+                point, kind = next_point(rng, tri, dim, family, spec.get("offset"), spec.get("scale"))
                 if point in tri.vertices or not near_vertex(tri, point):
                     break
             else:
@@ -939,15 +944,15 @@ def _run_case(spec):
             # left by an earlier insertion "inside" a simplex that was really on its edge), locate_point returns that simplex
             # first and the duplicate test (reduced simplex = one vertex) never sees the vertex
             foreign = None
-            if hint is None:
-                for sx in S0:
-                    if v not in sx:
-                        try:
-                            if tri.point_in_simplex(point, sx):
-                                foreign = sx
-                                break
-                        except Exception:
-                            pass
+            for sx in (S0 if hint is None else [tuple(hint)]):
+                # (with a hint the code tests the hinted simplex only: the same mechanism when the vertex lies in it within eps)
+                if v not in sx:
+                    try:
+                        if tri.point_in_simplex(point, sx):
+                            foreign = sx
+                            break
+                    except Exception:
+                        pass
             if foreign is not None:
                 fail("duplicate_rejected:vertex_located_in_foreign_simplex_within_eps",
                      f"the point {point} is already vertex {v}; within the in-simplex tolerance it also lies in simplex {foreign}, of "
@@ -1001,6 +1006,7 @@ def _run_case(spec):
     stats["family:" + family] += 1
     stats["metric:" + ("identity" if diag is None else "ratio<=%d" % (10 if max(diag) / min(diag) <= 10 else 100))] += 1
     stats["translated" if any(spec.get("offset") or []) else "untranslated"] += 1
+    stats["rescaled" if spec.get("scale") not in (None, 1.0) else "unit_scale"] += 1
     stats["final_simplices_total"] += len(tri.simplices)
     exp = {"dim": dim, "init": [[float(x).hex() for x in p] for p in init],
            "diag": None if diag is None else [float(x).hex() for x in diag], "ops": ops_done}
